@@ -426,7 +426,8 @@ Print Assumptions C10_ws_include_system_pieces.
    belongs to T).
    The side condition of the label is exactly what classify's ORDER requires (label_keywords = [if; elif; else; while]):
    `else :` is KElse for every run; `if  :` / `elif  :` / `while  :` are an if / elif / while with a white expression text as
-   soon as the run has a second character that is not LF (with at most one character they are labels: C10_ex_ws_label_keywords).
+   soon as the run has a second character that is not LF (with at most one character they are labels: C10_ex_ws_label_keywords;
+   the exact criterion is C10_ws_label_keyword_names below: a non-LF character behind the FIRST character of the run).
    EVERY other identifier is a label — also  endif endwhile endfor endfunction break continue for function jump return
    include  (`endif :` is a label; the six keyword-only regexes never match a line with a colon: a match of `^\s*KW\s*$`
    reads the whole line and none of its atoms reads a colon).
@@ -772,11 +773,12 @@ Qed.
      C10_ws_for_index_pieces, C10_ws_statement_gaps3_partial (relation stmt_spaced3); include 'url' (every quote of the url
      escaped): C10_ws_include_quoted_pieces; function begin: C10_ws_fn_begin_pieces; from before: the keyword-only statements and the bare `return` with any indentation and
      trailing whitespace (C10_ws_keyword_lines, C10_ws_return_bare) and `else :` (C10_ws_else_gap).
+   * round 8: the split of a function's argument text IS the list of the names, for every argument list
+     (C10_ws_fn_args_are_the_names, C10_ws_fn_begin_names); the labels named if / elif / while (C10_ws_label_keyword_names,
+     _iff, _nolf: label iff only LF behind the first character of the run, else the keyword statement with a one-character
+     white expression text, i.e. a syntax error); ONE relation stmt_spaced4 for all statement kinds with inner gaps, function
+     begin / include '...' / include <...> / keyword-named labels included (C10_ws_statement_gaps4_partial, _same, _symmetric).
    NOT proved (oracle only):
-   * function begin: the pieces theorem C10_ws_fn_begin_pieces (round 7) gives the argument list as the model's re_split of
-     the captured argument text at `\s*,\s*`; that this split is the list of the argument names is computed on examples,
-     not proved for every list; function begin, include '...' and the label are stated by their pieces only (they are
-     not constructors of stmt_spaced3: no expression in them — the label is);
    * C10_ws_statement_gaps_partial has the premise "the expression text parses" (it yields that BOTH layouts classify as
      the same kind) rather than "the first layout classifies successfully"; rejected lines are not related (their error
      record quotes the line, so it differs by construction; that the message and the column relative to the first token
